@@ -58,6 +58,12 @@ def gen(ctx):
     for _ in range(400 if ctx.tier == "quick" else 8000):
         vals.append(b"".join(rng.choice(words) for _ in range(rng.randint(0, 60))))
     vals.append(bytes(rng.randrange(256) for _ in range(1 << 16)))
+    # content whose character changes late: tens of kilobytes of short ASCII lines, then one non-ASCII character, one over-long line, binary
+    # octets or a NUL (the choice of the encoding looks at all of it)
+    for pre in (b"short ascii line\r\n" * 3700, b"short ascii line\n" * 4100, b"a" * 70 + b"\r\n"):
+        for tail in (b"caf\xc3\xa9\r\n", b"x" * 2500 + b"\r\n", b"\xff\xfe\x00binary", b"end\r\n", b"y" * 80, b"\xc3\xa9"):
+            if len(pre) > 1000 or tail == b"end\r\n":
+                vals.append(pre + tail)
     vals.append((b"The quick brown fox jumps over the lazy dog. " * 30000)[:1 << 20] if ctx.tier == "thorough" else b"lorem ipsum \n" * 5000)
     vals.append(("é=\t \r\n" * 20000).encode())
     return vals, n_exh
